@@ -65,34 +65,12 @@ impl InstructionGenerator {
                 self.generate_expression_instructions(s);
                 // A to D (step is in D)
                 self.push(Instruction::CopyAToD, pos);
-                // is step < 0 ?
-                self.push(Instruction::Less, pos);
-                self.jump_if_false("test-positive-or-zero", pos);
-                // negative step
-                self.generate_for_loop_instructions_positive_or_negative_step(
-                    &counter_var_name,
-                    statements.clone(),
-                    false,
-                    pos,
-                );
-                // jump out
-                self.jump("out-of-for", pos);
-                // PositiveOrZero: ?
-                self.label("test-positive-or-zero", pos);
-                // need to load it again into A because the previous "LessThan" op overwrote A
-                self.push(Instruction::CopyDToA, pos);
-                // is step > 0 ?
-                self.push(Instruction::Greater, pos);
+                // is step <> 0 ?
+                self.push(Instruction::NotEqual, pos);
                 self.jump_if_false("zero", pos);
-                // positive step
-                self.generate_for_loop_instructions_positive_or_negative_step(
-                    &counter_var_name,
-                    statements,
-                    true,
-                    pos,
-                );
-                // jump out
-                self.jump("out-of-for", pos);
+                // the sign of the step is tested at run time on every iteration,
+                // so that the body (and its labels) is generated only once
+                self.generate_for_loop_instructions_any_step(&counter_var_name, statements, pos);
                 // Zero step
                 self.label("zero", pos);
                 self.push(Instruction::Throw(RuntimeError::ForLoopZeroStep), step_pos);
@@ -111,6 +89,54 @@ impl InstructionGenerator {
                 self.label("out-of-for", pos);
             }
         }
+    }
+
+    fn generate_for_loop_instructions_any_step(
+        &mut self,
+        counter_var_name: &Expression,
+        statements: Statements,
+        pos: Position,
+    ) {
+        // loop point
+        self.label("step-loop", pos);
+        // is step < 0 ?
+        self.push_load(Variant::VInteger(0), pos);
+        self.push(Instruction::CopyAToB, pos);
+        self.push(Instruction::CopyDToA, pos);
+        self.push(Instruction::Less, pos);
+        self.jump_if_false("test-positive", pos);
+        // negative step: counter >= upper bound (C)
+        self.push(Instruction::CopyCToB, pos);
+        self.load_counter(counter_var_name, pos);
+        self.push(Instruction::GreaterOrEqual, pos);
+        self.jump("test-done", pos);
+        // positive step: counter <= upper bound (C)
+        self.label("test-positive", pos);
+        self.push(Instruction::CopyCToB, pos);
+        self.load_counter(counter_var_name, pos);
+        self.push(Instruction::LessOrEqual, pos);
+        self.label("test-done", pos);
+        self.jump_if_false("out-of-for", pos);
+
+        // push registers
+        self.push(Instruction::PushRegisters, pos);
+
+        // run loop body
+        self.visit(statements);
+
+        // to be able to resume after an error at the last statement and then pop registers
+        self.mark_statement_address();
+        self.push(Instruction::PopRegisters, pos);
+
+        // increment step
+        self.load_counter(counter_var_name, pos);
+        // copy step from D to B
+        self.push(Instruction::CopyDToB, pos);
+        self.push(Instruction::Plus, pos);
+        self.store_counter(counter_var_name, pos);
+
+        // back to loop
+        self.jump("step-loop", pos);
     }
 
     fn generate_for_loop_instructions_positive_or_negative_step(
